@@ -16,12 +16,16 @@ Layout of the proof (all modules are listed in tools/props.d/C11.json and audite
 * `C11Inf`   — `iota`, `repeat`, `cycle`, `iterate`: every non-negative index, every slice with
   non-negative bounds and every drop equals the recurrence; `len = none`.
 * `C11Perm`  — Permutations: the `usize` loop equals the closed form (n ≤ 20), the reduction of
-  coherence to the successor step lemma, the step lemma.
+  coherence to the successor step lemma.
+* `C11PermStep` — the successor step lemma itself (`perm_step`: the scan finds the last ascent and the
+  last larger entry; swap + reverse lowers the factorial-number-system rank by one), hence
+  `perm_coherent`, `perm_len_is_count`, `perm_unfoldsB`.
 
 This file: the summary statements and the remaining refutations.
 -/
 import NoulithModel.Theorems.C11Inf
 import NoulithModel.Theorems.C11Perm
+import NoulithModel.Theorems.C11PermStep
 
 namespace Noulith.C11
 open Noulith Noulith.Stream Noulith.StreamSpec
